@@ -99,7 +99,50 @@ def run_case(case: dict) -> list[tuple[str, str]]:
     return agree(parse_all(data))
 
 
+def bulk_seq(n: int, cls: str) -> list:
+    """n distinct RDF 1.1 statements (beyond any internal batch size such as 1000)."""
+    from mc.terms import DEFAULT, I, L  # noqa: PLC0415
+
+    out = []
+    for i in range(n):
+        st = (I(f"http://b{i % 7}.example/s{i}"), I(f"http://b{i % 3}.example/p"), L(str(i)))
+        if cls != "triple":
+            st = (*st, DEFAULT if i % 5 == 0 else I(f"http://g.example/g{(i // 11) % 4}"))
+        out.append(st)
+    return out
+
+
+def bulk_shard(job) -> dict:
+    _, n, cls = job
+    DR.ensure_rdflib_plugin()
+    acc = pool.Acc()
+    seq = bulk_seq(n, cls)
+    case = {"kind": "bulk", "n": n, "cls": cls}
+    acc.evals += 1
+    acc.nontrivial += 1
+    for k, msg in run_bulk(case):
+        acc.violation({"kind": "bulk", "fail": k}, f"{msg[:500]} case={case}", case)
+    acc.sample(case, cap=1)
+    return acc.out()
+
+
+def run_bulk(case: dict) -> list:
+    seq = bulk_seq(case["n"], case["cls"])
+    gb, rb = serialize_both(case["cls"], seq, (4000, 150, 32), 250)
+    fails = []
+    if gb != rb:
+        fails.append(("serializers-differ", f"{len(gb)} vs {len(rb)} bytes for {len(seq)} statements"))
+    res = parse_all(gb)
+    brief = {k: (v[0], len(v[1]) if v[0] == "ok" else v[1]) for k, v in res.items()}
+    for k, msg in agree(res):
+        fails.append((k, f"{len(seq)} statements: entry points disagree: {brief}"))
+        break
+    return fails
+
+
 def shard(job) -> dict:
+    if job[0] == "bulk":
+        return bulk_shard(job)
     kind, scope, cls, pi, L, lo, hi = job
     DR.ensure_rdflib_plugin()
     acc = pool.Acc()
@@ -159,6 +202,9 @@ def run(ctx) -> None:
             LR = 1 if ctx.quick else 2
             for pi in (1, 3):
                 jobs.append(("refenc", scope, cls, pi, LR, 0, AL.n_sequences(6, LR)))
+    for n in ((1001, 2100) if ctx.quick else (1000, 1001, 2002, 2100, 5003)):
+        for cls in DR.CLASSES:
+            jobs.append(("bulk", n, cls))
     merged = pool.merge(pool.pmap(shard, jobs))
     ctx.add(merged)
     ctx.coverage.update(
@@ -172,7 +218,8 @@ def run(ctx) -> None:
             "frame_size{1,250}: serialised through both integrations with identical explicit "
             "options (byte-identical?), every byte string through flat / grouped / parse-to-graph "
             "of both integrations (agreement within and across integrations); plus reference-"
-            "encoder streams with <=1 deviation through the same six parsers; non-trivial = "
+            "encoder streams with <=1 deviation through the same six parsers; bulk streams of "
+            "1001..5003 distinct statements (beyond internal batch sizes); non-trivial = "
             "at least two statements / at least one deviation"
         ),
     )
@@ -180,4 +227,6 @@ def run(ctx) -> None:
 
 def replay(case: dict) -> list:
     DR.ensure_rdflib_plugin()
+    if case["kind"] == "bulk":
+        return [m for _, m in run_bulk(case)]
     return [m for _, m in run_case(case)]
